@@ -230,10 +230,10 @@ def annotate_modifications(molecule, modifications, mutations, resspec_counts):
         should be applied.
     resspec_counts: list[dict]
         List modified in place containing information about whether a
-        modification/mutation has been applied successfully. If the target is
-        found, the dictionary has one entry, {'success': True}. If not,
-        'success' is False and there are additional items to indicate information
-        about the failure.
+        modification/mutation has been applied successfully. One dictionary is
+        added per specification, with the items 'success' (whether the target
+        was found in this molecule), 'mutmod' (the residue specification) and
+        'post' (the modification or mutation).
 
     Raises
     ------
@@ -255,17 +255,12 @@ def annotate_modifications(molecule, modifications, mutations, resspec_counts):
                for key in 'chain resid resname insertion_code'.split()}
     for mutmod, key, library in associations:
         for resspec, mod in mutmod:
-            extra = False
             mod_found = _resiter(mod, residue_graph, resspec, library, key, molecule)
-            if not mod_found:
-                #if no mod found, return that there's a problem
-                resspec_counts.append({'success': False,
-                                       'mutmod': _format_resname(resspec),
-                                       'post': mod,})
-                extra = True
-    #return that everything's fine by default
-    if not extra:
-        resspec_counts.append({'success': True})
+            # Keep track, per specification, of whether it was found in this
+            # molecule.
+            resspec_counts.append({'success': mod_found,
+                                   'mutmod': _format_resname(resspec),
+                                   'post': mod,})
 
 class AnnotateMutMod(Processor):
     """
@@ -299,7 +294,12 @@ class AnnotateMutMod(Processor):
         return molecule
     def run_system(self, system):
         super().run_system(system)
-        _exit = sum([i['success'] for i in self.resspec_counts])
-        if _exit == 0:
-            LOGGER.warning('Residue specified by "{}" for mutation "{}" not found',
-                           self.resspec_counts[0]['mutmod'], self.resspec_counts[0]['post'])
+        # A specification must be found in at least one molecule of the system.
+        found = {}
+        for count in self.resspec_counts:
+            key = (count['mutmod'], count['post'])
+            found[key] = found.get(key, False) or count['success']
+        for (mutmod, post), success in found.items():
+            if not success:
+                LOGGER.warning('Residue specified by "{}" for mutation "{}" not found',
+                               mutmod, post)
